@@ -17,12 +17,12 @@ import (
 	"github.com/smart-core-os/sc-golang/verifharness/lib"
 )
 
-// gateClock is the injected model clock of a forced-overlap round: it always shows the same instant,
-// and, once armed, parks the next caller of Now until release is closed. ChangeActiveMode reads the
+// gateClock is the injected model clock of a forced-overlap round: it shows the same instant until the
+// round advances it (stamp rounds: while calls are queued behind the parked one), and, once armed, parks the next caller of Now until release is closed. ChangeActiveMode reads the
 // model clock while it holds Model.mu, so parking it there makes every other model operation queue up
 // behind the lock; closing release lets all of them go at the same moment.
 type gateClock struct {
-	t       int64
+	t       atomic.Int64
 	armed   atomic.Bool
 	entered chan struct{}
 	release chan struct{}
@@ -33,14 +33,14 @@ func (c *gateClock) Now() time.Time {
 		close(c.entered)
 		<-c.release
 	}
-	return time.Unix(c.t, 0)
+	return time.Unix(c.t.Load(), 0)
 }
 func (c *gateClock) At(t time.Time) <-chan time.Time {
 	ch := make(chan time.Time, 1)
 	ch <- t
 	return ch
 }
-func (c *gateClock) After(d time.Duration) <-chan time.Time { return c.At(time.Unix(c.t, 0).Add(d)) }
+func (c *gateClock) After(d time.Duration) <-chan time.Time { return c.At(time.Unix(c.t.Load(), 0).Add(d)) }
 func (c *gateClock) Every(d time.Duration) clock.Ticker     { return nopTicker{} }
 
 // overlap is one forced-overlap round: Prefix runs sequentially, Gate is parked inside the model lock,
@@ -51,6 +51,15 @@ type overlap struct {
 	Gate   op     `json:"gate"`
 	Queued []op   `json:"queued"`
 	Now    int64  `json:"now"`
+	// Advance > 0 (stamp rounds): once the queued calls are blocked behind the parked one the model clock is
+	// moved from Now to Now+Advance, the active mode is observed at that instant, then the parked call is released.
+	Advance int64 `json:"advance,omitempty"`
+}
+
+func newGateClock(t int64) *gateClock {
+	gc := &gateClock{}
+	gc.t.Store(t)
+	return gc
 }
 
 // chunks scripted for id generation in a round: distinct 6-byte chunks, consumed in execution order.
@@ -97,11 +106,13 @@ type overlapObs struct {
 	Outs    []string // per queued op
 	Final   string
 	Err     string
+	// stamp rounds: the active mode observed after the clock was advanced and before the release ("" = not observed)
+	ActiveAtAdvance string
 }
 
 // runOverlap executes the round on the real code. All waits are bounded.
 func runOverlap(ov overlap) overlapObs {
-	gc := &gateClock{t: ov.Now}
+	gc := newGateClock(ov.Now)
 	w := newOverlapWorld(gc)
 	for _, o := range ov.Prefix {
 		w.exec(o)
@@ -158,6 +169,19 @@ func runOverlap(ov overlap) overlapObs {
 			time.Sleep(200 * time.Microsecond)
 		}
 	}
+	if ov.Advance > 0 && obs.Forced {
+		// the clock moves on while the calls wait for the model lock; at the new instant the old mode is
+		// still active (ActiveMode does not take the model lock; the wait is bounded all the same)
+		gc.t.Add(ov.Advance)
+		seen := make(chan string, 1)
+		go func() { seen <- showMode(w.model.ActiveMode()) }()
+		select {
+		case obs.ActiveAtAdvance = <-seen:
+		case <-time.After(2 * time.Second):
+		}
+	} else if ov.Advance > 0 {
+		gc.t.Add(ov.Advance)
+	}
 	releaseOnce()
 	done := make(chan struct{})
 	go func() { wg.Wait(); close(done) }()
@@ -181,10 +205,11 @@ func runOverlap(ov overlap) overlapObs {
 // seqReference runs prefix + the given order sequentially on a fresh real model with the same clock
 // value and RNG script; it also renders the Lean driver lines of that order.
 func seqReference(ov overlap, order []op) (outs []string, final string, lines []string) {
-	gc := &gateClock{t: ov.Now}
+	gc := newGateClock(ov.Now)
 	w := newOverlapWorld(gc)
+	now := ov.Now
 	render := func(o op) string {
-		o.Now = ov.Now
+		o.Now = now
 		if o.Kind == "create" || o.Kind == "s.create" {
 			w.rng.mu.Lock()
 			cs := []string{}
@@ -204,6 +229,9 @@ func seqReference(ov overlap, order []op) (outs []string, final string, lines []
 		lines = append(lines, render(o))
 		w.exec(o)
 	}
+	// the calls of the round are performed after the release, i.e. at the advanced instant
+	now = ov.Now + ov.Advance
+	gc.t.Store(now)
 	for _, o := range order {
 		lines = append(lines, render(o))
 		out, _, _ := w.exec(o)
@@ -263,6 +291,9 @@ func explain(ov overlap, obs overlapObs) (found bool, order []op, lines []string
 
 // genOverlap draws a forced-overlap round.
 func genOverlap(r *rand.Rand) overlap {
+	if r.Intn(4) == 0 {
+		return genStampOverlap(r)
+	}
 	ov := overlap{Now: int64(500 + r.Intn(100))}
 	ids := []string{"a", "b", "c", "x"}
 	// setup: a few stored modes, at most one normal, and a first active mode
@@ -299,7 +330,9 @@ func genOverlap(r *rand.Rand) overlap {
 	case 3:
 		ov.Class = "normal-race"
 		for i := 0; i < n; i++ {
-			switch r.Intn(4) {
+			switch r.Intn(5) {
+			case 4:
+				ov.Queued = append(ov.Queued, op{Kind: "update", Mode: &mode{ID: fmt.Sprint("u", i%2), Title: "up", Normal: true}, CreateIfAbsent: true})
 			case 0:
 				ov.Queued = append(ov.Queued, op{Kind: "s.create", Mode: &mode{Title: fmt.Sprint("c", i), Normal: true}})
 			case 1:
@@ -346,6 +379,144 @@ func genOverlap(r *rand.Rand) overlap {
 	return ov
 }
 
+// stampStarts are the start times the stored modes of a stamp round carry (0 = none); all differ from
+// every instant the round's clock shows.
+var stampStarts = map[string]int64{"a": 3, "b": 0, "c": 9, "x": 0}
+
+func isSwitch(k string) bool { return k == "change" || k == "s.change" || k == "clear" || k == "s.clear" }
+
+// genStampOverlap draws a stamp round, the dual of the other classes: an operation on the mode list
+// (create / add / update / delete - none of them reads the clock for a start time) is parked inside the
+// model lock, 1-3 switches of the active mode (ChangeActiveMode, UpdateActiveMode, ChangeToNormalMode,
+// ClearActiveMode; plus now and then a delete or an update of a switch target) queue up behind it, the
+// model clock moves on, then the parked call is released. A switch is performed after the release, so
+// the start time it stamps must be the advanced instant.
+func genStampOverlap(r *rand.Rand) overlap {
+	ov := overlap{Class: "stamp-queued-switch", Now: int64(500 + r.Intn(100)), Advance: int64(1 + r.Intn(600))}
+	ids := []string{"a", "b", "c", "x"}
+	normalAt := r.Intn(len(ids) + 1)
+	var added []string
+	for i, id := range ids {
+		if r.Intn(5) == 0 && id != "a" && id != "b" {
+			continue
+		}
+		added = append(added, id)
+		ov.Prefix = append(ov.Prefix, op{Kind: "add", Mode: &mode{ID: id, Title: "t" + id, Normal: i == normalAt, Start: stampStarts[id]}})
+	}
+	active := ""
+	if r.Intn(3) != 0 {
+		active = added[r.Intn(len(added))]
+		ov.Prefix = append(ov.Prefix, op{Kind: []string{"change", "s.change"}[r.Intn(2)], ID: active})
+	}
+	// the parked call: a successful write to the mode list that leaves the switch targets alone
+	victim := ""
+	for _, id := range added {
+		if id != active && id != "a" && id != "b" {
+			victim = id
+		}
+	}
+	switch k := r.Intn(5); {
+	case k == 0:
+		ov.Gate = op{Kind: "add", Mode: &mode{ID: "g", Title: "gate"}}
+	case k == 1:
+		ov.Gate = op{Kind: []string{"create", "s.create"}[r.Intn(2)], Mode: &mode{Title: "gate"}}
+	case k == 2:
+		ov.Gate = op{Kind: []string{"update", "s.update"}[r.Intn(2)], Mode: &mode{ID: added[r.Intn(len(added))], Title: "gate"}, HasMask: true, Mask: []string{"title"}}
+	case k == 3 && victim != "":
+		ov.Gate = op{Kind: []string{"delete", "s.delete"}[r.Intn(2)], ID: victim}
+	default:
+		ov.Gate = op{Kind: "add", Mode: &mode{ID: "g", Title: "gate", Desc: "d"}}
+	}
+	n := 1 + r.Intn(3)
+	for i := 0; i < n; i++ {
+		id := added[r.Intn(len(added))]
+		switch r.Intn(8) {
+		case 0, 1, 2:
+			ov.Queued = append(ov.Queued, op{Kind: "change", ID: id})
+		case 3, 4:
+			ov.Queued = append(ov.Queued, op{Kind: "s.change", ID: id})
+		case 5:
+			ov.Queued = append(ov.Queued, op{Kind: []string{"clear", "s.clear"}[r.Intn(2)]})
+		case 6:
+			if i > 0 {
+				ov.Queued = append(ov.Queued, op{Kind: "s.delete", ID: id, AllowMissing: r.Intn(2) == 0})
+			} else {
+				ov.Queued = append(ov.Queued, op{Kind: "change", ID: id})
+			}
+		default:
+			if i > 0 {
+				ov.Queued = append(ov.Queued, op{Kind: "s.update", Mode: &mode{ID: id, Title: "u"}, HasMask: true, Mask: []string{"title"}})
+			} else {
+				ov.Queued = append(ov.Queued, op{Kind: "s.change", ID: id})
+			}
+		}
+	}
+	for i := range ov.Queued {
+		ov.Queued[i].Now = ov.Now + ov.Advance
+	}
+	ov.Gate.Now = ov.Now
+	for i := range ov.Prefix {
+		ov.Prefix[i].Now = ov.Now
+	}
+	return ov
+}
+
+// startField extracts the start_time from a rendered result "OK=m:<id>:<title>:<normal>:<start>:…".
+func startField(out string) (start string, ok bool) {
+	if !strings.HasPrefix(out, "OK=m:") {
+		return "", false
+	}
+	fs := strings.Split(out[len("OK="):], ":")
+	if len(fs) < 5 {
+		return "", false
+	}
+	return fs[4], true
+}
+
+func idField(out string) string {
+	fs := strings.Split(out, ":")
+	if len(fs) < 2 {
+		return ""
+	}
+	b, _ := hexDecode(fs[1])
+	return b
+}
+
+// checkStamp is the start-time clause under a moving clock, with its own oracle: every switch of the
+// round was performed after the clock had been advanced (the old active mode was observed at the
+// advanced instant, and the model lock was still held by the parked call), so the start time a
+// successful switch returns is the advanced instant - or, when the mode was already the active one, the
+// start time it is stored with. Nothing else is "the clock's current time" for any order of the calls.
+func checkStamp(m *lib.Monitor, ov overlap, obs overlapObs) {
+	if ov.Advance <= 0 || !obs.Forced {
+		return
+	}
+	input := map[string]any{"overlap": ov}
+	t1 := fmt.Sprint(ov.Now + ov.Advance)
+	stored := func(id string) string {
+		if v := stampStarts[id]; v != 0 {
+			return fmt.Sprint(v)
+		}
+		return "-"
+	}
+	for i, o := range ov.Queued {
+		if !isSwitch(o.Kind) {
+			continue
+		}
+		st, ok := startField(obs.Outs[i])
+		if !ok {
+			continue
+		}
+		id := idField(obs.Outs[i])
+		if st != t1 && st != stored(id) {
+			m.Violate("C19/stamp/start-time-not-clock-at-switch/"+o.Kind,
+				"a switch of the active mode that waited for the model lock stamped a start time that is not the model clock's time at the switch", input,
+				fmt.Sprintf("start_time %s: the clock showed %s from before the switch could be performed (active mode observed at that instant: %s)", t1, t1, obs.ActiveAtAdvance),
+				fmt.Sprintf("%s -> %s (the clock showed %d only while the call was queuing)", o.line(), obs.Outs[i], ov.Now))
+		}
+	}
+}
+
 // checkOverlap evaluates one round: every call's outcome and the final state must be those of SOME
 // serial order (oracle: the real code run sequentially), and the outcomes that no serial order can
 // produce are named directly.
@@ -365,6 +536,7 @@ func checkOverlap(m *lib.Monitor, ov overlap, obs overlapObs) (found bool, order
 			m.Violate("C19/delete/allow-missing-not-ok/concurrent-"+o.Kind, "a delete with allow-missing reported NotFound under a concurrent mix (no serial order allows that)", input, "OK (or FailedPrecondition for the active mode)", got[i])
 		}
 	}
+	checkStamp(m, ov, obs)
 	found, order, lines, seqOuts, seqFinal := explain(ov, obs)
 	if !found {
 		sort.Strings(seqOuts)
